@@ -95,7 +95,9 @@ PROPS["C01"] = dict(
                "an e.p. target only on the right rank, empty, behind an enemy pawn) the model's legal moves, read through absMove, are a PERMUTATION of the FIDE legal moves of the "
                "reference semantics (legal_perm: exactly the set, each once); per move kind: officers, king steps, pawn pushes / double steps / captures / promotions x4 / en passant, "
                "both castlings (officers_iff, pawns_iff, castles_iff, pseudo_iff, pseudo_nodup); every generated move carries accurate kind / piece / capture metadata "
-               "(pseudo_metaOK: MetaOK and ClassOK); Move accepts a generated move iff the rules call it legal (move_isSome_iff_legal); WF is proved necessary (two kings). The enums, "
+               "(pseudo_metaOK: MetaOK and ClassOK); Move accepts a generated move iff the rules call it legal (move_isSome_iff_legal); WF is proved necessary (two kings). Reachability: the invariant WFplay (WF and the side not to move is not in check) holds at "
+               "the start position and is preserved by every generated move that Move accepts (wf_preserved; plain WF alone is NOT preserved - wf_not_preserved exhibits the "
+               "king capture), hence every position reachable by generated moves satisfies all of the above (reachable_wf, reachable_refines, reachable_legal). The enums, "
                "piece lists and masks the generator depends on are re-proved equal to the Go source on every run (GenTie). Tie: ordered move lists with all six fields and legality "
                "flags impl vs model exact; impl vs reference as sets; perft vs reference and published counts.",
     level_note="Trusted: Lean kernel; Model.Position tied by exact comparison on generated positions; Spec.Chess as the reference (perft-validated against the published counts).",
@@ -168,13 +170,12 @@ PROPS["C02"] = dict(
                "nothing set >= 64) is established by NewPosition and preserved by every xor; for every move whose metadata is accurate (MetaOK, decidable) Position.Move yields "
                "a position representing exactly the board the rules prescribe (origin emptied, promoted piece, e.p. victim removed, rook hop), with castling rights = old "
                "minus those of every home square touched and the e.p. target set iff double step; abs p' = Spec.apply (abs p) m; lifted over all move sequences "
-               "(reachable_rep, play_refines) - so a redundant view can never disagree later. 'MetaOK holds for every generated move' is kernel-checked on 163 moves of "
-               "four positions and otherwise decided by the differential stream (that link belongs to C01).",
+               "(reachable_rep, play_refines) - so a redundant view can never disagree later. 'MetaOK holds for every generated move' of every position reachable by generated moves from a well-formed start is C01.reachable_wf.",
     level_note="Trusted: Lean kernel; Model.Position tied by apply/playq streams (successor FEN, rights, e.p., views agreement after every move, source position untouched).",
     technique="Lean 4 refinement proof (Rep relation preserved by xor; Move = <= 4 xors) + differential impl/model/spec on all pseudo-legal moves of generated positions",
     rule="every pseudo-legal move (legal and illegal) of generated positions applied on impl, model and spec; played lines without re-decoding; non-trivial = special move kinds "
          "(capture, e.p., castling, promotion, jump) / lines containing them; distinct by (position, move) or line",
-    partial=["that every move emitted by PseudoLegalMoves satisfies MetaOK/ClassOK is proved only by evaluation on concrete positions (general proof is part of C01)"],
+    partial=[],
     modelled=["board/position.go: NewPosition, xor, Move, Square, IsEmpty; board/move.go: EnPassantTarget, EnPassantCapture, CastlingRookMove, CastlingRightsLost; RotatedBitboard.Xor"],
 )
 
@@ -220,8 +221,9 @@ PROPS["C05"] = dict(
                "(clock_exact); HasInsufficientMaterial = K v K / K+minor v K / two bishops on one colour (material_iff, material_iff_spec); adjudication = checkmate iff in check "
                "(adjudicate); and the link to the reference history semantics Spec.Game.drawReasons for whole games (spec_link, game_link). Tie: after every push/pop/fork of generated "
                "histories the reported result vs the draw conditions recomputed from the whole history by the reference.",
-    level_note="Trusted: Lean kernel; Model.Board tied by the game stream; Spec.Game as the reference. Hypotheses kept explicit: moves are generated moves of the side to move (GoodMove / MoveSound, "
-               "decidable: playCheck), set-up clock >= 0, two kings for the material rule. Reason precedence when several conditions hold is not prescribed by the property: any holding reason is accepted by the stream.",
+    level_note="Trusted: Lean kernel; Model.Board tied by the game stream; Spec.Game as the reference. The hypotheses 'moves are generated moves of the side to move' (GoodMove / MoveSound) are now DERIVED from the generator for every "
+               "game played with generated moves from a well-formed start (pseudo_moveSound, draw_iff_reachable, game_link_reachable; invariant WFplay = WF + side not to move not in check, "
+               "preserved by every accepted generated move: C01.wf_preserved); set-up clock >= 0 and two kings for the material rule remain hypotheses on the start. Reason precedence when several conditions hold is not prescribed by the property: any holding reason is accepted by the stream.",
     technique="Lean 4 refinement proof (arena line vs whole-history count; decreasing measure for irreversibility; C07 for hash faithfulness) + differential game histories",
     rule="histories in 4 styles (biased, shuffling, quiet, mixed) from 24 draw-prone starts + corpus + synthetic; non-trivial = history reaching a draw (rep3/rep5/np/mat), adjudication, fork, pop or special move; distinct by script",
     partial=[],
@@ -410,31 +412,35 @@ PROPS["C18"] = dict(
                "board unchanged (C08), analysis_sees_the_game - the search on the rebased fork equals the search on the engine's own world, analyze_pure. Tie: each search (plain, "
                "turochamp, sargon, bernstein wiring) repeated, with three Zobrist seeds, after and alongside other searches: identical (nodes, score, PV); analysis parked inside an "
                "evaluation while the engine's game moves on; noise reproducible from the seed.",
-    level_note="Trusted: Lean kernel. seed_independent assumes every generated move pushed is a C05 GoodStep (decidable: treeCheck; holds on the examples; C01 gives MetaOK/ClassOK, the "
-               "remaining MoveSound facts are not yet derived from the generator). Data races between an unwinding halted search and its successor: race detector (thorough). The historical "
+    level_note="Trusted: Lean kernel. seed_independent_reachable discharges the GoodStep hypothesis for every game played with generated moves from a WFplay start (goodGen_of_wf, treeCheck_of_wf). Data races between an unwinding halted search and its successor: race detector (thorough). The historical "
                "evaluators are not transcribed: their determinism is decided by repetition.",
     technique="Lean 4 proof (simulation congruence for alpha-beta/quiescence; C05/C07/C08 for seed independence and fork isolation) + differential repetition / seeds / concurrency / gated isolation",
     rule="16 det scripts x 4 engine kinds (10 searches each) + 12 isolation scenarios (gate 30-330, hash 0/1) + 6 noise scripts; non-trivial = distinct script",
-    partial=["GoodStep for generated moves is a hypothesis of seed_independent (decidable per position); historical evaluators by repetition only"],
+    partial=["historical evaluators by repetition only"],
     modelled=["engine/engine.go Analyze (fork), board.Fork, search (pure model)"],
 )
 
 PROPS["C20"] = dict(
-    modules=["Morlock.Props.C06", "Morlock.Props.C01"],
+    modules=["Morlock.Props.C20", "Morlock.Props.C06", "Morlock.Props.C01"],
     streams=["c20"],
-    level_text="Tie (decides the property; exploration level): on generated legal positions with short histories and on curated squeezed positions (bare kings boxed in, stalemate-like), "
+    level_text="Lean theorems for the parts that are rules, not heuristics: the colour mirror (board flipped, colours swapped) is an involution and commutes with the attack relation, check, "
+               "pseudo-legal and legal move generation, making a move, and perft on every position with at most one king per side (attackedBy_mirror, inCheck_mirror, pseudoMoves_mirror, "
+               "apply_mirror, isLegal_mirror, legalMoves_mirror, perft_mirror; the one-king hypothesis is shown necessary), lifted to the bitboard generator through C01 "
+               "(model_legalMoves_mirror); the generic material evaluation (eval.Material with the generated NominalValue table) equals the reference balance and is colour-blind "
+               "(material_eq_spec, material_mirror_model); the no-under-promotion filter selects only legal moves, each once, never an under-promotion, and at least one whenever a legal "
+               "move exists, because the legality of a promotion does not depend on the piece chosen (promo_legal_any, skip_underpromo_legal_and_nonempty, skip_underpromo_nonempty_spec). "
+               "Tie (exploration level) for the three historical evaluators and their filters: on generated legal positions with short histories and on curated squeezed positions, "
                "for the generic material, TUROCHAMP (Eval, Material) and BERNSTEIN (factor 1, 8, 20) evaluations: the value is finite and equals the value of the colour-mirrored "
-               "game (board flipped, colours swapped, history mirrored) exactly; SARGON points finite; BERNSTEIN FindPlausibleMoves and the limit 1/3/7 move table select only legal "
+               "game (history mirrored) exactly; SARGON points finite; BERNSTEIN FindPlausibleMoves and the limit 1/3/7 move table select only legal "
                "non-under-promotion moves, each once, within the limit, at least one whenever a legal move exists, never an illegal pseudo-legal move; SARGON SkipUnderPromotions "
                "selects a non-empty set without under-promotions; TUROCHAMP considerable-move predicate is evaluated on every legal move after it was made; both opening books are "
-               "walked breadth-first and every reply is checked legal in the position it is keyed on. Lean: the attack/move-generation facts the evaluators rest on (C06, C01 lemmas); "
-               "the historical evaluators themselves are not transcribed.",
-    level_note="No Lean model of the three historical evaluators exists (floating-point heuristics, ~1500 lines): this check is differential/exploratory against independent oracles "
-               "(mirror symmetry, legality recomputed from the rules). Claimed at proof level only for the underlying attack relation.",
-    technique="property-based differential testing with mirror symmetry and legality oracles; exhaustive walk of the opening books",
+               "walked breadth-first and every reply is checked legal in the position it is keyed on.",
+    level_note="The three historical evaluators (floating-point heuristics, ~1500 lines) are not transcribed: for them the check is differential/exploratory against independent oracles "
+               "(mirror symmetry, legality recomputed from the rules). Proof level is claimed for the mirror symmetry of the rules, the generic material evaluation and the under-promotion filter.",
+    technique="Lean 4 proof (mirror symmetry of the rules, material, under-promotion filter) + property-based differential testing with mirror symmetry and legality oracles; exhaustive walk of the opening books",
     rule="150 (quick) / 6000 (thorough) positions with histories + curated squeezed positions; non-trivial = distinct script; position features counted",
-    partial=["historical evaluators and filters are not modelled in Lean: exploration only"],
-    modelled=[],
+    partial=["TUROCHAMP / BERNSTEIN / SARGON evaluators, plausible-move and considerable-move filters are not modelled in Lean: exploration only; Lean covers the mirror symmetry of the rules, eval.Material and the under-promotion filter"],
+    modelled=["eval/material.go Material, NominalValue -> Model (materialPawns); search exploration filter IsUnderPromotion -> Driver.noUnderPromo / Props.C20.pick"],
 )
 
 
